@@ -11,3 +11,4 @@ open GoMail.Props.C01
 #print axioms tree_leaves
 #print axioms render_is_tree_all
 #print axioms boundary_delimits_children
+#print axioms no_narrow_counters
